@@ -41,6 +41,7 @@ func checkNames(r *Run, prog *Program, pfx string) {
 			c := c
 			ps := NewPathSim(prog)
 			ps.Seed = func(st *pstate) { st.eqc[p.Key()] = constKey(c) }
+			ps.Inline = func(g *ssa.Function) bool { return prog.InModule(g) && g != m }
 			sums := ps.Run(m)
 			got := "?"
 			if len(sums) == 1 && len(sums[0].Results) == 1 {
@@ -102,21 +103,16 @@ func checkNames(r *Run, prog *Program, pfx string) {
 		c := c
 		ps := NewPathSim(prog)
 		ps.Seed = func(st *pstate) { st.eqc[loadField(p, "Mode").Key()] = constKey(c) }
+		ps.Inline = func(g *ssa.Function) bool { return prog.InModule(g) && g != m }
 		sums := ps.Run(m)
 		ok := len(sums) == 1
 		var got []string
-		if ok {
-			for _, ev := range sums[0].Events() {
-				if ev.Instr != nil && isCallTo(ev.Callee, "fmt", "Sprintf") && ev.Deref[1] != nil {
-					elems, _ := sliceElems(sums[0].St, ev.Args[1], ev.Deref[1])
-					for _, el := range elems {
-						if el.K == sMkIface {
-							for _, f := range []string{"Default", "Index", "Value"} {
-								if el.A.Key() == loadField(p, f).Key() {
-									got = append(got, f)
-								}
-							}
-						}
+		if ok && len(sums[0].Results) == 1 {
+			// the leaves of the rendered string, in order: through Sprintf arguments, concatenations and conversions
+			for _, leaf := range stringLeaves(sums[0].St, sums[0].Results[0], 0) {
+				for _, f := range []string{"Default", "Index", "Value"} {
+					if leaf.Key() == loadField(p, f).Key() {
+						got = append(got, f)
 					}
 				}
 			}
@@ -197,7 +193,10 @@ func checkDumpInduction(r *Run, prog *Program, ga *GA, pfx string) {
 		children := exprFields(nt)
 		ps := NewPathSim(prog)
 		ps.maxVisits = 5
-		ps.Inline = func(c *ssa.Function) bool { return prog.InModule(c) && c.Signature.Recv() == nil }
+		ps.MaxDepth = 4
+		ps.Inline = func(c *ssa.Function) bool {
+			return prog.InModule(c) && c.Name() != "ExpressionDump" && c.Name() != "String"
+		}
 		sums := ps.Run(m)
 		if len(sums) == 0 {
 			r.Check(pfx+".dump", tn, prog.pos(m.Pos()), false, "no path")
@@ -208,82 +207,113 @@ func checkDumpInduction(r *Run, prog *Program, ga *GA, pfx string) {
 			if sm.Panic != nil {
 				probs = append(probs, "explicit panic")
 			}
-			var seq []string
+			isChild := func(ev *Event) bool {
+				return ev.Instr.Common().IsInvoke() && ev.Instr.Common().Method.Name() == "ExpressionDump"
+			}
+			pieces := outputOf(sm, pW, isChild)
 			var childOrder []string
-			for _, ev := range sm.Events() {
-				if ev.Instr == nil {
+			// segments between the child dumps
+			segs := [][]outPiece{nil}
+			for _, pc := range pieces {
+				if pc.bad != "" {
+					probs = append(probs, pc.bad)
 					continue
 				}
-				com := ev.Instr.Common()
-				switch {
-				case isCallTo(ev.Callee, "fmt", "Fprintf"):
-					seq = append(seq, "write")
-					if len(ev.Args) < 3 || ev.Args[0].K != sMkIface && ev.Args[0].Key() != pW.Key() {
-						probs = append(probs, "a line is written to something other than the writer argument")
-					} else if ev.Args[0].K == sMkIface && ev.Args[0].A.Key() != pW.Key() {
-						probs = append(probs, "a line is written to something other than the writer argument")
-					}
-					if ev.Args[1].K != sConst {
-						probs = append(probs, "the format of a dump line is not a constant string (rendered text would be re-read as formatting directives)")
-					}
-					// indentation: some argument is strings.Repeat(indent, level) or (indent, level+1)
-					elems, _ := sliceElems(sm.St, ev.Args[2], ev.Deref[2])
-					ind := false
-					for _, el := range elems {
-						x := el
-						if x.K == sMkIface {
-							x = x.A
-						}
-						if fn, _ := calleeOfSym(x); isCallTo(fn, "strings", "Repeat") {
-							ra := symArgs(sm.St, x)
-							if len(ra) == 2 && ra[0].Key() == pIndent.Key() {
-								b, o := linear(ra[1])
-								if b == pLevel.Key() && (o == 0 || o == 1) {
-									ind = true
-								}
-							}
-						}
-					}
-					if !ind {
-						probs = append(probs, "a dump line is not prefixed by strings.Repeat(indent, level) (or level+1 for a leaf's inner lines)")
-					}
-				case com.IsInvoke() && com.Method.Name() == "ExpressionDump":
-					seq = append(seq, "child")
-					f, ok := "", false
-					if ev.Args[0].K == sLoad && ev.Args[0].A.K == sFieldAddr && ev.Args[0].A.A.Key() == pRecv.Key() {
-						f, ok = ev.Args[0].A.Str, true
-					}
-					if !ok {
-						probs = append(probs, "recursion on something that is not a child field of the receiver: "+shortKey(ev.Args[0]))
-						continue
-					}
-					childOrder = append(childOrder, f)
-					if len(ev.Args) != 4 || ev.Args[1].Key() != pW.Key() || ev.Args[2].Key() != pIndent.Key() {
-						probs = append(probs, "child "+f+" is not dumped to the same writer with the same indent string")
-					}
-					if len(ev.Args) == 4 {
-						b, o := linear(ev.Args[3])
-						if b != pLevel.Key() || o != 1 {
-							probs = append(probs, fmt.Sprintf("child %s is dumped at level %s, expected level+1 (one indent level per tree level, at every depth)", f, shortKey(ev.Args[3])))
-						}
+				if pc.child == nil {
+					segs[len(segs)-1] = append(segs[len(segs)-1], pc)
+					continue
+				}
+				segs = append(segs, nil)
+				ev := pc.child
+				f, ok := "", false
+				if ev.Args[0].K == sLoad && ev.Args[0].A.K == sFieldAddr && ev.Args[0].A.A.Key() == pRecv.Key() {
+					f, ok = ev.Args[0].A.Str, true
+				}
+				if !ok {
+					probs = append(probs, "recursion on something that is not a child field of the receiver: "+shortKey(ev.Args[0]))
+					continue
+				}
+				childOrder = append(childOrder, f)
+				if len(ev.Args) != 4 || ev.Args[1].Key() != pW.Key() || ev.Args[2].Key() != pIndent.Key() {
+					probs = append(probs, "child "+f+" is not dumped to the same writer with the same indent string")
+				}
+				if len(ev.Args) == 4 {
+					b, o := linear(ev.Args[3])
+					if b != pLevel.Key() || o != 1 {
+						probs = append(probs, fmt.Sprintf("child %s is dumped at level %s, expected level+1 (one indent level per tree level, at every depth)", f, shortKey(ev.Args[3])))
 					}
 				}
 			}
 			if strings.Join(childOrder, ",") != strings.Join(children, ",") {
 				probs = append(probs, fmt.Sprintf("children dumped: %v; the node's Expression fields in declaration order: %v (each exactly once, pre-order)", childOrder, children))
 			}
-			if len(children) > 0 {
-				okShape := len(seq) == len(children)+2 && seq[0] == "write" && seq[len(seq)-1] == "write"
-				for _, s := range seq[1 : len(seq)-1] {
-					if s != "child" {
+			// every line the node writes itself starts with strings.Repeat(indent, level) (level+1 for a leaf's inner lines)
+			lineOK := func(line []outPiece, levels ...int64) bool {
+				if len(line) == 0 {
+					return false
+				}
+				k, ok := indentLevel(sm.St, line[0], pIndent, pLevel)
+				if !ok {
+					return false
+				}
+				for _, l := range levels {
+					if k == l {
+						return true
+					}
+				}
+				return false
+			}
+			endsWith := func(line []outPiece, suffix string) bool {
+				last := line[len(line)-1]
+				return last.verb == 0 && last.child == nil && strings.HasSuffix(last.lit, suffix)
+			}
+			describe := func() string {
+				var seq []string
+				for i, sg := range segs {
+					if i > 0 {
+						seq = append(seq, "child")
+					}
+					ls, rest := templateLines(sg)
+					for range ls {
+						seq = append(seq, "line")
+					}
+					if len(rest) > 0 {
+						seq = append(seq, "partial-line")
+					}
+				}
+				return strings.Join(seq, " ")
+			}
+			if len(children) > 0 && len(segs) == len(children)+1 {
+				open, rest0 := templateLines(segs[0])
+				okShape := len(open) == 1 && len(rest0) == 0 && lineOK(open[0], 0) && len(open[0]) >= 2 && endsWith(open[0], " {")
+				for _, mid := range segs[1 : len(segs)-1] {
+					if len(mid) != 0 {
 						okShape = false
 					}
 				}
-				if !okShape {
-					probs = append(probs, "a composite node must write an opening line, dump its children, and write a closing line: "+strings.Join(seq, " "))
+				cl, rest1 := templateLines(segs[len(segs)-1])
+				if !(len(cl) == 1 && len(rest1) == 0 && lineOK(cl[0], 0) && len(cl[0]) == 2 && cl[0][1].verb == 0 && cl[0][1].lit == "}") {
+					okShape = false
 				}
-			} else if len(seq) != 1 || seq[0] != "write" {
-				probs = append(probs, "a leaf must be rendered by one write: "+strings.Join(seq, " "))
+				if !okShape {
+					probs = append(probs, "a composite node must write an opening line `<indent×level><header> {`, dump its children, and write the closing line `<indent×level>}`: "+describe())
+				}
+			} else if len(children) == 0 {
+				ls, rest := templateLines(segs[0])
+				okLeaf := len(segs) == 1 && len(ls) >= 2 && len(rest) == 0
+				for i, ln := range ls {
+					switch {
+					case i == 0:
+						okLeaf = okLeaf && lineOK(ln, 0) && endsWith(ln, " {")
+					case i == len(ls)-1:
+						okLeaf = okLeaf && lineOK(ln, 0) && len(ln) == 2 && ln[1].lit == "}"
+					default:
+						okLeaf = okLeaf && lineOK(ln, 1)
+					}
+				}
+				if !okLeaf {
+					probs = append(probs, "a leaf must be rendered as `<indent×level><operator> {`, inner lines at level+1, `<indent×level>}`: "+describe())
+				}
 			}
 			pos := prog.pos(m.Pos())
 			if sm.Ret != nil {
@@ -314,38 +344,30 @@ func checkLeafDump(r *Run, prog *Program, ga *GA, pfx string) {
 		c := c
 		ps := NewPathSim(prog)
 		ps.Seed = func(st *pstate) { st.eqc[opKey] = constKey(c) }
+		ps.Inline = func(g *ssa.Function) bool {
+			return prog.InModule(g) && g != m && g.Name() != "String" && g.Name() != "ExpressionDump"
+		}
 		for _, sm := range ps.Run(m) {
 			usesRaw, quoted, selOK, opName := false, false, false, false
-			for _, ev := range sm.Events() {
-				if ev.Instr == nil || !isCallTo(ev.Callee, "fmt", "Fprintf") {
+			for _, pc := range outputOf(sm, paramSym(m.Params[1]), nil) {
+				x := pc.arg
+				if x == nil {
 					continue
 				}
-				format := ""
-				if ev.Args[1].K == sConst && ev.Args[1].C != nil {
-					format = constant.StringVal(ev.Args[1].C)
+				if x.Key() == rawKey {
+					usesRaw = true
+					if pc.verb == 'q' && pc.flags == "" {
+						quoted = true // the verb applied to the literal quotes (plain %q: strconv.Quote)
+					}
 				}
-				elems, _ := sliceElems(sm.St, ev.Args[2], ev.Deref[2])
-				for i, el := range elems {
-					x := el
-					if x.K == sMkIface {
-						x = x.A
+				if (pc.verb == 'v' || pc.verb == 's') && pc.flags == "" && (x.Key() == loadField(pRecv, "Selector").Key() || isSelectorString(sm.St, x, pRecv)) {
+					if selT != nil && implementsStringer(selT) {
+						selOK = true
 					}
-					if x.Key() == rawKey {
-						usesRaw = true
-						// the verb applied to this argument quotes
-						if strings.Contains(format, fmt.Sprintf("%%[%d]q", i+1)) || (strings.Count(format, "%") == len(elems) && nthVerb(format, i) == 'q') {
-							quoted = true
-						}
-					}
-					if x.Key() == loadField(pRecv, "Selector").Key() || strings.HasPrefix(x.Key(), "call(") && strings.Contains(x.Key(), "") && isSelectorString(sm.St, x, pRecv) {
-						if selT != nil && implementsStringer(selT) {
-							selOK = true
-						}
-					}
-					if fn, _ := calleeOfSym(x); fn != nil && fn.Name() == "String" {
-						if ra := symArgs(sm.St, x); len(ra) == 1 && ra[0].Key() == opKey {
-							opName = true
-						}
+				}
+				if fn, _ := calleeOfSym(x); fn != nil && fn.Name() == "String" && (pc.verb == 'v' || pc.verb == 's') && pc.flags == "" {
+					if ra := symArgs(sm.St, x); len(ra) == 1 && ra[0].Key() == opKey {
+						opName = true
 					}
 				}
 			}
@@ -488,4 +510,39 @@ func init() {
 		r.Explain = "Decides: every operator constant renders as the documented name (exhaustive, pairwise distinct), ALL/ANY and the four binding forms likewise; every composite ExpressionDump writes an opening line, dumps each Expression-typed field of its receiver exactly once in declaration order with (the same writer, the same indent string, level+1), then writes a closing line; every line has a constant format and is prefixed by strings.Repeat(indent, level) (level+1 inside a leaf) — by induction over tree height this is pre-order with one indent level per tree level at every depth; the leaf names its operator through MatchOperator.String, prints the selector through Selector.String (dotted / slash-joined / empty), and dereferences and quotes the literal only for operators the grammar always builds with a literal; children are non-nil and the tree is acyclic and never modified after parsing, so the recursion terminates without panicking. NOT decided: byte-exact layout inside the constant format strings."
 		r.Assume = append(r.Assume, "fmt.Fprintf with a constant format and %v/%s on a Stringer calls its String method")
 	})
+}
+
+// stringLeaves: the operands a rendered string is made of, in order: `a + b`, conversions, and the arguments of
+// fmt.Sprintf / fmt.Sprint are looked through.
+func stringLeaves(st *pstate, s *Sym, depth int) []*Sym {
+	if s == nil || depth > 8 {
+		return nil
+	}
+	switch s.K {
+	case sBin:
+		if s.Op == token.ADD {
+			return append(stringLeaves(st, s.A, depth+1), stringLeaves(st, s.B, depth+1)...)
+		}
+	case sConvert:
+		return stringLeaves(st, s.A, depth+1)
+	case sMkIface:
+		return stringLeaves(st, s.A, depth+1)
+	case sCall:
+		if fn, _ := calleeOfSym(s); isCallTo(fn, "fmt", "Sprintf") || isCallTo(fn, "fmt", "Sprint") {
+			var out []*Sym
+			for _, ev := range st.events {
+				if ev.Res != nil && ev.Res.Key() == s.Key() && ev.Instr != nil {
+					last := len(ev.Args) - 1
+					if last >= 0 && ev.Deref[last] != nil {
+						elems, _ := sliceElems(st, ev.Args[last], ev.Deref[last])
+						for _, el := range elems {
+							out = append(out, stringLeaves(st, el, depth+1)...)
+						}
+					}
+				}
+			}
+			return out
+		}
+	}
+	return []*Sym{s}
 }
